@@ -148,7 +148,7 @@ func check(line []byte, family string) {
 	names := nameList(&c)
 	detail := func(extra map[string]interface{}) map[string]interface{} {
 		d := map[string]interface{}{"family": family, "src": src, "program": c.P, "spec": map[string]interface{}{
-			"reject": c.Reject, "why": c.Why, "cls": c.Cls, "cap": c.Cap, "flags": c.Flags, "log": c.Log, "org": c.Org}}
+			"reject": c.Reject, "why": c.Why, "cls": c.Cls, "cap": c.Cap, "clscell": c.ClsCell, "flags": c.Flags, "log": c.Log, "org": c.Org}}
 		for k, v := range extra {
 			d[k] = v
 		}
@@ -215,6 +215,10 @@ func check(line []byte, family string) {
 			rep.Violation(fmt.Sprintf("C03|Blocks|kind=%s|observed=%s", c.P[b].Kind, blocks[b].Type), detail(map[string]interface{}{"blocks": blocks, "block": b + 1}))
 			return
 		}
+		if b < len(c.ClsCell) && c.ClsCell[b] != blocks[b].NeedsClassClosure {
+			rep.Violation(fmt.Sprintf("C03|ClassCell|block=%s,expected=%v|observed=%v", want, c.ClsCell[b], blocks[b].NeedsClassClosure),
+				detail(map[string]interface{}{"blocks": blocks, "block": b + 1}))
+		}
 		for _, n := range names {
 			exp, got := c.Cls[b][n], blocks[b].Scope[n]
 			orgMu.Lock()
@@ -261,7 +265,8 @@ func check(line []byte, family string) {
 	}
 	for b, co := range codes {
 		for _, n := range names {
-			if isCell := c.Cls[b][n] == "cell"; isCell != has(co.Cellvars, n) {
+			isCell := c.Cls[b][n] == "cell" || (n == "__class__" && b < len(c.ClsCell) && c.ClsCell[b])
+			if isCell != has(co.Cellvars, n) {
 				rep.Violation(fmt.Sprintf("C03|CodeObjects|kind=%s,cellvar expected=%v|observed=%v", c.P[b].Kind, isCell, !isCell), detail(map[string]interface{}{"block": b + 1, "name": n, "cellvars": co.Cellvars}))
 			}
 			if c.Cap[b][n] != has(co.Freevars, n) {
@@ -394,20 +399,21 @@ func replay() {
 		Case struct {
 			Program []scope.Scope `json:"program"`
 			Spec    struct {
-				Reject bool                  `json:"reject"`
-				Why    string                `json:"why"`
-				Cls    []map[string]string   `json:"cls"`
-				Cap    []map[string]bool     `json:"cap"`
-				Flags  []map[string][]string `json:"flags"`
-				Log    []string              `json:"log"`
-				Org    []string              `json:"org"`
+				Reject  bool                  `json:"reject"`
+				Why     string                `json:"why"`
+				Cls     []map[string]string   `json:"cls"`
+				Cap     []map[string]bool     `json:"cap"`
+				ClsCell []bool                `json:"clscell"`
+				Flags   []map[string][]string `json:"flags"`
+				Log     []string              `json:"log"`
+				Org     []string              `json:"org"`
 			} `json:"spec"`
 		} `json:"case"`
 	}
 	if err := json.Unmarshal(b, &f); err != nil || len(f.Case.Program) == 0 {
 		common.Inconclusive("property=C03 replay file %s has no program: %v", env.Replay, err)
 	}
-	c := scope.Case{P: f.Case.Program, Reject: f.Case.Spec.Reject, Why: f.Case.Spec.Why, Cls: f.Case.Spec.Cls, Cap: f.Case.Spec.Cap,
+	c := scope.Case{P: f.Case.Program, Reject: f.Case.Spec.Reject, Why: f.Case.Spec.Why, Cls: f.Case.Spec.Cls, Cap: f.Case.Spec.Cap, ClsCell: f.Case.Spec.ClsCell,
 		Flags: f.Case.Spec.Flags, Log: f.Case.Spec.Log, Org: f.Case.Spec.Org, SpecOK: true}
 	line, _ := json.Marshal(c)
 	fmt.Print(scope.Render(c.P))
@@ -455,6 +461,7 @@ func main() {
 			return
 		}
 		dres = append(dres, design("ScopeMC", "ScopeMC_"+tier+".cfg", wDesign))
+		dres = append(dres, design("ScopeMC", "ScopeMC_cls.cfg", wDesign)) // the same comparison for the special name __class__
 		dres = append(dres, design("RefineMC", "RefineMC_"+tier+".cfg", wDesign))
 		if env.Thorough() {
 			dres = append(dres, design("RefineMC", "RefineMC_thorough4.cfg", wDesign))
@@ -465,7 +472,7 @@ func main() {
 	gres = append(gres, generate("PyScopeLocset", "locset.cfg", "locset", nil, wGen))
 	gres = append(gres, generate("PyScopeBFS", "bfs_"+tier+".cfg", "bfs", nil, wGen))
 	gres = append(gres, generate("PyScopeFlags", "flags_"+tier+".cfg", "flags", nil, wGen))
-	shards, per := 1, 3000
+	shards, per := 1, 2600
 	if env.Thorough() {
 		gres = append(gres, generate("PyScopeFlags", "flags_thorough2.cfg", "flags", nil, wGen))
 		shards, per = 5, 25000
@@ -504,7 +511,7 @@ func main() {
 		"the logging scaffold (LOG, L, REG, FNS, try/except NameError, keyword calls, **dict call) works in gpython (checked: a broken scaffold shows as a divergence on every program)",
 	}
 	// vacuity: resolution rules the run must have exercised
-	for _, need := range []string{"use:def/local", "use:def/cell", "use:def/free", "use:class/local", "use:class/free", "use:comp/free", "use:lambda/free", "use:class/free+ns"} {
+	for _, need := range []string{"use:def/local", "use:def/cell", "use:def/free", "use:class/local", "use:class/free", "use:comp/free", "use:lambda/free", "use:class/free+ns", "use(__class__):def/free"} {
 		if orgCount[need] == 0 {
 			common.Inconclusive("property=C03 vacuous run: no log entry produced by rule %s", need)
 		}
